@@ -18,7 +18,7 @@ MOD = "mc.props.c15"
 
 NS = 'xmlns="http://www.w3.org/2000/svg" xmlns:xlink="http://www.w3.org/1999/xlink"'
 ROOTS = {
-    "shapes": f'<svg {NS} viewBox="0 0 100 100" width="100" height="100"><rect x="10" y="10" width="30" height="20" rx="4" fill="red" data-foo="bar"/><path d="m50 10 h20 v15 s-5 5 -10 0 z M50,10 L55,12 L52,14 Z" fill-rule="evenodd" fill-opacity="0.5"/></svg>',
+    "shapes": f'<svg {NS} viewBox="0 0 100 100" width="100" height="100" fill="teal" stroke-width="3"><rect x="10" y="10" width="30" height="20" rx="4" fill="red" data-foo="bar"/><a xlink:href="#x" fill="blue"><rect x="50" y="60" width="40" height="4" rx="10" fill="black" stroke-width="1"/></a><path d="m50 10 h20 v15 s-5 5 -10 0 z M50,10 L55,12 L52,14 Z" fill-rule="evenodd" fill-opacity="0.5"/></svg>',
     "styleuse": f'<svg {NS} viewBox="0 0 100 100" width="100" height="100" style="fill:green"><defs><rect id="t" width="10" height="10" style="opacity:0.5"/></defs><use xlink:href="#t" x="5" y="5"/><use xlink:href="#t" transform="translate(40 40) scale(2)"/><ellipse cx="70" cy="20" rx="10" ry="5" style="fill:red;stroke:none"/><title>x</title></svg>',
     "groupstroke": f'<svg {NS} viewBox="0 0 100 100" width="100" height="100"><g opacity="0.5"><rect x="10" y="10" width="40" height="40" fill="red"/><circle cx="50" cy="50" r="20" fill="blue" stroke="black" stroke-width="3"/></g><line x1="0" y1="90" x2="100" y2="90" stroke="green" stroke-width="2"/><rect width="0" height="5"/></svg>',
     "nestclip": f'<svg {NS} viewBox="0 0 100 100" width="100" height="100"><defs><clipPath id="c"><circle cx="50" cy="50" r="30"/></clipPath></defs><svg x="10" y="10" width="50" height="50" viewBox="0 0 100 100"><rect x="-20" y="20" width="140" height="30" fill="purple"/></svg><rect x="20" y="20" width="60" height="60" fill="orange" clip-path="url(#c)"/><?pi x?><symbol><rect width="3" height="3"/></symbol></svg>',
